@@ -74,7 +74,7 @@ func (e *Exec) callCommon(s *State, ins ssa.Instruction, c *ssa.CallCommon, args
 		callee = f.Fn.(*ssa.Function)
 	default:
 		// closure value held in a variable: resolve if it is a known closure
-		if cl, ok := fv.(*ClosureV); ok {
+		if cl := e.closureFor(fv); cl != nil {
 			callee = cl.Fn
 			args = append(append([]Value(nil), args...), cl.Bindings...)
 			return e.callFunc(s, ins, callee, args, pos, true)
@@ -107,7 +107,21 @@ func (e *Exec) makeClosure(s *State, x *ssa.MakeClosure) Value {
 	for _, b := range x.Bindings {
 		cl.Bindings = append(cl.Bindings, e.val(s, b))
 	}
-	return cl
+	n := TS.Fresh("closure_"+cl.Fn.Name(), RefSort)
+	s.assume(App("<", "Bool", n, IntLit(0))) // function values live outside the object heap
+	if e.closures == nil {
+		e.closures = map[*Node]*ClosureV{}
+	}
+	e.closures[n] = cl
+	return n
+}
+
+func (e *Exec) closureFor(v Value) *ClosureV {
+	n, ok := v.(*Node)
+	if !ok || e.closures == nil {
+		return nil
+	}
+	return e.closures[n]
 }
 
 func (e *Exec) callFunc(s *State, ins ssa.Instruction, callee *ssa.Function, args []Value, pos token.Pos, withBindings bool) Value {
@@ -194,7 +208,7 @@ func (e *Exec) havocAllHeaps(s *State) {
 	}
 	sort.Strings(ks)
 	for _, k := range ks {
-		if strings.HasPrefix(k, "G:") && e.v.ghostImmutable(k) {
+		if e.v.immutableHeap(k) {
 			continue
 		}
 		e.setHeap(s, k, TS.Fresh("havoc_"+k, e.heapSorts[k]))
@@ -284,7 +298,9 @@ func (e *Exec) applyContract(s *State, ins ssa.Instruction, fc *FuncContract, si
 	}
 	cname := shortFuncName(fc.Key)
 	sub := e.calleeCtxExec(fc)
-	e.counters["call:"+cname]++
+	if e.quiet == 0 {
+		e.counters["call:"+cname]++
+	}
 	ord := e.counters["call:"+cname]
 	pre := s.clone()
 	for i, r := range fc.Requires {
@@ -419,7 +435,7 @@ func (e *Exec) havocTarget(s, pre *State, m string, vars map[string]specVar, fc 
 		if idx < 0 {
 			e.unsupported("modifies %q: no such field", m)
 		}
-		fp := &FieldPtr{Base: v, ST: st, Idx: idx}
+		fp := &FieldPtr{Base: v, ST: st, Idx: idx, NT: derefType(t)}
 		loc := e.resolve(fp, st.Field(idx).Type())
 		e.writeLocQuiet(s, loc, e.freshValue(s, "mod_"+fld, st.Field(idx).Type()))
 	}
@@ -638,10 +654,6 @@ func (e *Exec) makeInterface(s *State, x *ssa.MakeInterface) Value {
 	i := TS.Fresh("iface", "Iface")
 	s.assume(Eq(App("dyn", "Int", i), IntLit(int64(e.v.typeTag(t)))))
 	s.assume(Not(Eq(i, ifaceNil())))
-	if cl, ok := v.(*ClosureV); ok {
-		_ = cl
-		return i
-	}
 	bx := e.unbox(i, t)
 	zipLeaves(bx, v, func(a, b *Node) *Node { s.assume(Eq(a, b)); return a })
 	return i
